@@ -6,8 +6,9 @@
    ([Q]).  Sparse Eigen matrices are represented by their dense expansion (absent entry = 0): every
    getter of the classes (coeff, row sums) sees exactly that expansion.
 
-   [fixed : bool] selects the discount validation: [false] = the code as it is in /repo,
-   [true] = the code after fixes/C06-discount-validation.patch.
+   [fixed : bool]: [false] = the code of the pinned commit, [true] = the code after the C06 repairs
+   (fixes/C06-discount-validation.patch, C06-sparse-isprobability-negatives.patch,
+   C06-sparse-setters-validate-stored.patch, C06-amdp-unvisited-reward.patch).
    [kind] selects dense (MDP::Model) or sparse (MDP::SparseModel) storage. *)
 From Coq Require Import List Arith QArith Bool.
 From AIT Require Import Base.Qx.
@@ -111,6 +112,12 @@ Definition isProbabilityS2 (m : list (list xq)) : bool := forallb isProbabilityR
 (* src: src/Utils/Probability.cpp:isProbability(const SparseMatrix3D &) *)
 Definition isProbabilityS3 (t : list (list (list xq))) : bool := forallb isProbabilityS2 t.
 
+(* the same overload after fixes/C06-sparse-isprobability-negatives.patch: the stored coefficients of each
+   row are walked with `value < 0 -> false; sum += value` — on the dense expansion (absent = 0) this is
+   the 1D template loop *)
+Definition isProbabilityS3f (fixed : bool) (t : list (list (list xq))) : bool :=
+  if fixed then isProbability3 t else isProbabilityS3 t.
+
 (* ------------------------------------------------------------------ discount *)
 (* src: src/MDP/Model.cpp:Model::setDiscount (and SparseModel::setDiscount): true = accepted.
    fixed=false: `if (d <= 0.0 || d > 1.0) throw`;  fixed=true: `if (!(d > 0.0 && d <= 1.0)) throw` *)
@@ -175,19 +182,23 @@ Definition rewards3 (k : kind) (S A : nat) (T : tab3) (r : rtab3) : mat :=
         match k with Dense => x | Sparse => qdrop_small x end) (seq 0 A)) (seq 0 S).
 
 (* src: Model::setTransitionFunction(const T &) / SparseModel::setTransitionFunction(const T &):
-   validation on the whole input first, then the copy (sparse: small entries dropped) *)
-Definition setT3 (k : kind) (S A : nat) (t : tab3) : option tab3 :=
+   validation on the whole input first, then the copy (sparse: small entries dropped).
+   fixed = true (fixes/C06-sparse-setters-validate-stored.patch): the sparse table is built on the side
+   and re-validated after dropping, before it replaces the stored one *)
+Definition setT3 (fixed : bool) (k : kind) (S A : nat) (t : tab3) : option tab3 :=
   if isProbability3 t then
-    Some (match k with
-          | Dense => transpose01 S A t
-          | Sparse => map (map (map drop_small)) (transpose01 S A t)
-          end)
+    match k with
+    | Dense => Some (transpose01 S A t)
+    | Sparse =>
+      let T := map (map (map drop_small)) (transpose01 S A t) in
+      if fixed && negb (isProbabilityS3f fixed T) then None else Some T
+    end
   else None.
 
 (* src: src/MDP/Model.cpp:Model::setTransitionFunction(const Matrix3D &)
    src: src/MDP/SparseModel.cpp:SparseModel::setTransitionFunction(const SparseMatrix3D &) *)
-Definition setTM (k : kind) (t : tab3) : option tab3 :=
-  if (match k with Dense => isProbabilityM3 t | Sparse => isProbabilityS3 t end) then Some t else None.
+Definition setTM (fixed : bool) (k : kind) (t : tab3) : option tab3 :=
+  if (match k with Dense => isProbabilityM3 t | Sparse => isProbabilityS3f fixed t end) then Some t else None.
 
 (* src: SparseModel::SparseModel(const M &) — one (s,a) row: range check per entry, drop small ones *)
 Fixpoint sp_copy_row (l : list xq) : option (list xq) :=
@@ -244,7 +255,7 @@ Definition construct (fixed : bool) (k : kind) (o : op) : option model * result 
     (* src: Model.hpp:Model::Model(s, a, t, r, d): setDiscount; setTransitionFunction; setRewardFunction *)
     if negb (shape3 s a s t && shape3 s a s r) then (None, Pre)
     else if negb (setDiscount_ok fixed d) then (None, Throw)
-    else match setT3 k s a t with
+    else match setT3 fixed k s a t with
          | None => (None, Throw)
          | Some T => (Some {| mS := s; mA := a; mT := T; mR := rewards3 k s a T r; mD := d |}, Ok)
          end
@@ -268,13 +279,13 @@ Definition setter (fixed : bool) (k : kind) (m : model) (o : op) : model * resul
   match o with
   | SetT3 t =>
     if negb (shape3 (mS m) (mA m) (mS m) t) then (m, Pre)
-    else match setT3 k (mS m) (mA m) t with
+    else match setT3 fixed k (mS m) (mA m) t with
          | None => (m, Throw)
          | Some T => ({| mS := mS m; mA := mA m; mT := T; mR := mR m; mD := mD m |}, Ok)
          end
   | SetTM t =>
     if negb (shape3 (mA m) (mS m) (mS m) t) then (m, Pre)
-    else match setTM k t with
+    else match setTM fixed k t with
          | None => (m, Throw)
          | Some T => ({| mS := mS m; mA := mA m; mT := T; mR := mR m; mD := mD m |}, Ok)
          end
@@ -328,13 +339,7 @@ Definition initOb (S A O : nat) : tab3 :=
 
 (* src: POMDP/Model.hpp:Model<M>::setObservationFunction(const ObFun &) and the SparseModel twin:
    every of[s1][a] checked with the 1D isProbability, then copied (sparse: small entries dropped) *)
-Definition setO3 (ko : kind) (S A : nat) (obf : tab3) : option tab3 :=
-  if isProbability3 obf then
-    Some (match ko with
-          | Dense => transpose01 S A obf
-          | Sparse => map (map (map drop_small)) (transpose01 S A obf)
-          end)
-  else None.
+Definition setO3 (fixed : bool) (ko : kind) (S A : nat) (obf : tab3) : option tab3 := setT3 fixed ko S A obf.
 
 Definition pconstruct (fixed : bool) (kb ko : kind) (o : pop) : option pmodel * result :=
   match o with
@@ -349,7 +354,7 @@ Definition pconstruct (fixed : bool) (kb ko : kind) (o : pop) : option pmodel * 
     else match construct fixed kb c with
          | (Some m, _) =>
            if negb (shape3 (mS m) (mA m) no obf) then (None, Pre)
-           else match setO3 ko (mS m) (mA m) obf with
+           else match setO3 fixed ko (mS m) (mA m) obf with
                 | None => (None, Throw)
                 | Some ob => (Some {| pM := m; pO := no; pOb := ob |}, Ok)
                 end
@@ -378,13 +383,13 @@ Definition psetter (fixed : bool) (kb ko : kind) (p : pmodel) (o : pop) : pmodel
     else let '(m', r) := setter fixed kb (pM p) b in ({| pM := m'; pO := pO p; pOb := pOb p |}, r)
   | PSetO3 obf =>
     if negb (shape3 (mS (pM p)) (mA (pM p)) (pO p) obf) then (p, Pre)
-    else match setO3 ko (mS (pM p)) (mA (pM p)) obf with
+    else match setO3 fixed ko (mS (pM p)) (mA (pM p)) obf with
          | None => (p, Throw)
          | Some ob => ({| pM := pM p; pO := pO p; pOb := ob |}, Ok)
          end
   | PSetOM obf =>
     if negb (shape3 (mA (pM p)) (mS (pM p)) (pO p) obf) then (p, Pre)
-    else match setTM ko obf with
+    else match setTM fixed ko obf with
          | None => (p, Throw)
          | Some ob => ({| pM := pM p; pO := pO p; pOb := ob |}, Ok)
          end
@@ -449,3 +454,35 @@ Definition amdp_finish (fixed : bool) (k : kind) (T : list mat) (R : mat) : list
                       (combine (seq 0 (length Ta)) Ta)) T,
    map (fun s => map (fun a => snd (amdp_finish_row fixed k s (row (nth a T []) s) (nthq (row R s) a)))
                      (seq 0 (length T))) (seq 0 (length R))).
+
+(* ------------------------------------------------------------------ AMDP: accumulation loop *)
+Fixpoint upd_nth {A : Type} (i : nat) (f : A -> A) (l : list A) : list A :=
+  match l, i with
+  | [], _ => []
+  | x :: t, O => f x :: t
+  | x :: t, S i' => x :: upd_nth i' f t
+  end.
+
+(* one pass of the innermost loop body of AMDP::discretizeDense/Sparse: belief bucket s, action a,
+   successor bucket s1 = discretizer(b1 / p), p = b1.sum(), r = beliefExpectedReward(model, b, a) *)
+Record contrib := { c_s : nat; c_a : nat; c_s1 : nat; c_p : Q; c_r : Q }.
+
+(* Qred only normalises the fraction (Qred q == q): it keeps the extracted model fast.
+   src: AMDP.hpp: `if (checkDifferentSmall(0.0, p)) { T[a](s, s1) += p; R(s, a) += p * r; }`
+   (sparse: the reward only `if (checkDifferentSmall(0.0, r))`) *)
+Definition amdp_add (k : kind) (TR : list mat * mat) (c : contrib) : list mat * mat :=
+  if eqSmall 0 (c_p c) then TR
+  else (upd_nth (c_a c) (upd_nth (c_s c) (upd_nth (c_s1 c) (fun x => Qred (x + c_p c)))) (fst TR),
+        match k with
+        | Dense => upd_nth (c_s c) (upd_nth (c_a c) (fun x => Qred (x + c_p c * c_r c))) (snd TR)
+        | Sparse => if eqSmall 0 (c_r c) then snd TR
+                    else upd_nth (c_s c) (upd_nth (c_a c) (fun x => Qred (x + c_p c * c_r c))) (snd TR)
+        end).
+
+(* T = A matrices S1 x S1 of zeros, R = S1 x A zeros, then all contributions in loop order *)
+Definition amdp_accumulate (k : kind) (S1 A : nat) (cs : list contrib) : list mat * mat :=
+  fold_left (amdp_add k) cs (repeat (repeat (repeat 0 S1) S1) A, repeat (repeat 0 A) S1).
+
+(* the whole derivation from the contributions *)
+Definition amdp_derive (fixed : bool) (k : kind) (S1 A : nat) (cs : list contrib) : list mat * list (list xq) :=
+  let TR := amdp_accumulate k S1 A cs in amdp_finish fixed k (fst TR) (snd TR).
